@@ -600,3 +600,18 @@ for _pid in [x for x in os.environ.get("H2V_DEV_CLAIM", "").split(",") if x]:
 
 PROPS["C16"].update({"profiles": CONN_PROFILES + E2E_PROGRESS, "impl_only_prefixes": ("e2e_",), "impl_fail_tags": ("C16",),
                      "history_starts": ("cn_new", "e2e_run")})
+
+
+# C01 at the stream layer: the connection model (DATA order / ledger theorems in H2V/Props/C01Streams.lean when present)
+# tied to the real connection like the other connection-level properties; the codec-chain theorems stay in Props/C01.lean
+PROPS["C01"].update({
+    "conn_compare": True, "monitor": mon_conn, "monitor_tagged": True,
+    "profiles": PROPS["C01"]["profiles"] + CONN_PROFILES,
+    "history_starts": ("e2e_run", "cn_new"),
+})
+if _load_theorems("C01Streams"):
+    PROPS["C01"]["theorems"] = PROPS["C01"]["theorems"] + _load_theorems("C01Streams")
+    PROPS["C01"]["lean_targets"] = PROPS["C01"]["lean_targets"] + ["H2V.Props.C01Streams"]
+if _load_theorems("C08NoPanic"):
+    PROPS["C08"]["theorems"] = PROPS["C08"]["theorems"] + _load_theorems("C08NoPanic")
+    PROPS["C08"]["lean_targets"] = PROPS["C08"]["lean_targets"] + ["H2V.Props.C08NoPanic"]
